@@ -154,6 +154,7 @@ class Harness(object):
             self.flags.add('non_default_base_currency')
         self._closed = {}
         self._applied = 0
+        self.pclock = {}         # model of each portfolio's clock: creation, transfers and fills move it forward
         self._invariants(['init'])
 
     # ------------------------------------------------------------------------------------------ valid ops
@@ -196,6 +197,7 @@ class Harness(object):
         self.last[pid] = {}
         self.hist[pid] = []
         self.mag[pid] = F(0)
+        self.pclock[pid] = self.b.current_dt
 
     def _lead_blocks(self, pid):
         return self.b.portfolios[pid].current_dt > self.b.current_dt
@@ -215,6 +217,7 @@ class Harness(object):
             self.hist[pid].append(('subscription', F(a), self.cash[pid]))
         self._bump(pid, F(a), self.cash[pid])
         self.flags.add('transfer_in')
+        self.pclock[pid] = max(self.pclock[pid], self.b.current_dt)
         if a <= 1.0:
             self.flags.add('amount_le_1')
 
@@ -235,6 +238,7 @@ class Harness(object):
             self.hist[pid].append(('withdrawal', -F(a), self.cash[pid]))
         self._bump('master', self.master)
         self.flags.add('transfer_out')
+        self.pclock[pid] = max(self.pclock[pid], self.b.current_dt)
         if a == bal and a > 0:
             self.flags.add('withdraw_exact_balance')
 
@@ -465,7 +469,8 @@ class Harness(object):
                 return
             call = lambda: b.create_portfolio(1234)
         elif kind in ('early_sub', 'early_wd', 'early_txn', 'early_mark'):
-            et = port.current_dt - pd.Timedelta(minutes=1 if x < 50 else 1440)
+            # earlier than the portfolio's clock as the history implies it (creation, transfers, fills)
+            et = self.pclock[pid] - pd.Timedelta(minutes=1 if x < 50 else 1440)
             if kind == 'early_sub':
                 call = lambda: port.subscribe_funds(et, x)
             elif kind == 'early_wd':
@@ -494,6 +499,7 @@ class Harness(object):
             # broker catches up the portfolio refuses broker-level transfers and the master must stay untouched
             later = max(b.current_dt, port.current_dt) + pd.Timedelta(minutes=30)
             port.subscribe_funds(later, x)
+            self.pclock[pid] = max(self.pclock[pid], later)
             self.cash[pid] += F(x)
             self.hist[pid].append(('subscription', F(x), self.cash[pid]))
             self._bump(pid, F(x), self.cash[pid])
@@ -559,6 +565,8 @@ class Harness(object):
             self.filled[txn.order_id] = self.filled.get(txn.order_id, 0) + 1
             self.pend[pid] = [x for x in self.pend[pid] if x[0] != txn.order_id]
             self.count('fills')
+            if tapped_pid in self.pclock:
+                self.pclock[tapped_pid] = max(self.pclock[tapped_pid], txn.dt)
             if txn.commission != 0:
                 self.flags.add('fill_with_commission')
             if old != 0 and new == 0:
